@@ -4,6 +4,6 @@ From Coq Require Import Ascii.
 From Grog Require Import Lock.
 Extraction Language OCaml.
 Extraction "model.ml" Lock.step Lock.run Lock.mk_init Lock.next_event Lock.holds_b
-  Lock.read_before_write Lock.remove_of_unexamined_inode Lock.actor
+  Lock.remove_of_unexamined_inode Lock.actor
   Lock.w1_sched Lock.w2_sched
   Ascii.eqb (* only so that model.ml defines [ascii], which the shared ocaml/wire.ml mentions *).
